@@ -67,6 +67,9 @@ def gen_plan(rng, index, tier):
         else:
             mh, mw = rng.randint(40, 200), rng.randint(40, 200)
         n_nodes = rng.choice([1, 2, 3, 4])
+        blob = rng.random() < 0.15  # grayscale path: single-channel float frames with one-node animals drawn as blobs
+        if blob:
+            n_nodes = 1
         refinement = rng.choice([None, "integral"])
         plan = {"kind": kind, "H": H, "W": W, "max_hw": [mh, mw], "n_nodes": n_nodes, "refinement": refinement,
                 "batch": rng.choice([1, 2, 3, 4]), "dtype": rng.choice(["uint8", "uint8", "float32"]), "sigma": rng.choice([1.5, 2.0]),
@@ -74,6 +77,9 @@ def gen_plan(rng, index, tier):
         if mixed:
             plan["sizes"] = sizes
             plan["batch"] = rng.choice([2, 3, 4])
+        if blob:
+            plan["frame_kind"] = "blob"
+            plan["dtype"] = "float32"
 
         def stage():
             ms = rng.choice([1, 2, 4, 8, 16, 32])
@@ -93,6 +99,11 @@ def gen_plan(rng, index, tier):
             crop = int(math.ceil(rng.choice([32, 48, 64]) / cms) * cms)
             plan["crop_hw"] = [crop, crop]
             plan["max_instances"] = None
+        if blob:
+            # wide enough that the stride grid still sees a unique maximum above the 0.2 threshold after every rescale
+            st_list = [plan[k] for k in ("single", "centroid", "centered") if k in plan]
+            e_min = min(eff_scale(sz[0], sz[1], mh, mw)[0] for sz in sizes)
+            plan["blob_sigma"] = max(2.5, max(1.0 * st["stride"] / (st["scale"] * e_min) for st in st_list))
         fidxs = list(range(8))
         rng.shuffle(fidxs)  # unique frame indices across both videos: (vid, fidx) identifies a frame
         for k in range(n_frames):
@@ -104,7 +115,7 @@ def gen_plan(rng, index, tier):
             if kind == "single":
                 s_, S = plan["single"]["scale"], plan["single"]["stride"]
                 sig = s_ * e
-                margin = 4.0 * S / sig + 3.0
+                margin = 4.0 * S / sig + 3.0 + (2.0 * plan["blob_sigma"] if blob else 0.0)
                 if 2 * margin + 4 > min(fH, fW):
                     ok = False
                     break
@@ -127,8 +138,8 @@ def gen_plan(rng, index, tier):
                     ok = False
                     break
                 ext = min(ext, 12.0)
-                margin = max(4.0 * S_c / sig_c + 3.0, ext + 2.0)
-                sep = 1.6 * crop / sig_ci + 2 * ext + 8.0 * S_c / sig_c
+                margin = max(4.0 * S_c / sig_c + 3.0, ext + 2.0) + (2.0 * plan["blob_sigma"] if blob else 0.0)
+                sep = 1.6 * crop / sig_ci + 2 * ext + 8.0 * S_c / sig_c + (8.0 * plan["blob_sigma"] if blob else 0.0)
                 if 2 * margin + 4 > min(fH, fW):
                     ok = False
                     break
@@ -164,6 +175,9 @@ def describe(plan):
         if k in plan:
             d[k] = plan[k]
     d["animals_per_frame"] = [len(f["animals"]) for f in plan["frames"]]
+    if plan.get("frame_kind") == "blob":
+        d["frame_kind"] = "blob"
+        d["blob_sigma"] = round(plan["blob_sigma"], 2)
     if "sizes" in plan:
         d["sizes"] = plan["sizes"]
         d["frame_vid"] = [f.get("vid") for f in plan["frames"]]
@@ -192,7 +206,7 @@ def shrink(plan):
         yield mod(batch=1)
     if plan["refinement"]:
         yield mod(refinement=None)
-    if plan["dtype"] != "uint8":
+    if plan["dtype"] != "uint8" and plan.get("frame_kind") != "blob":
         yield mod(dtype="uint8")
     mixed = "sizes" in plan and len({tuple(x) for x in plan["sizes"]}) > 1
     if plan["max_hw"] != [None, None] and not mixed:
@@ -261,7 +275,8 @@ def _fkey(plan, f, i, provider):
 def execute(plan, choices=None):
     violations = []
     probes = {"keypoints_compared": 0, "invisible_checked": 0, "scaled_runs": 0, "size_matched_runs": 0, "padded_runs": 0,
-              "worst_err_over_tol_x1000_max": 0, "provider_pairs_compared": 0, "integral_refinement": 0, "instances_compared": 0, "degenerate_tie_scene_skipped": 0, "mixed_frame_sizes": 0, "frame_without_visible_animal": 0}
+              "worst_err_over_tol_x1000_max": 0, "provider_pairs_compared": 0, "integral_refinement": 0, "instances_compared": 0, "degenerate_tie_scene_skipped": 0, "mixed_frame_sizes": 0, "frame_without_visible_animal": 0,
+              "grayscale_blob_frames": int(plan.get("frame_kind") == "blob")}
 
     def V(kind, where, detail):
         violations.append({"kind": kind, "sig": f"{kind}:{where}", "detail": detail})
